@@ -19,6 +19,7 @@ from dataclasses import dataclass, field
 from pathlib import Path
 from typing import Any, Callable, Dict, Iterable, List, Optional
 
+CASE_WALL_LIMIT = 120.0  # a case normally takes milliseconds; beyond this it is "inconclusive"
 VERIF = Path(__file__).resolve().parent.parent
 REPO = Path(os.environ.get("VERIF_REPO", "/repo")).resolve()
 
@@ -132,8 +133,19 @@ class Recorder:
 
     def run(self, case: Any) -> None:
         self.cases += 1
+        import signal
+
+        def on_alarm(signum: int, frame: Any) -> None:
+            raise Inconclusive(f"case exceeded {CASE_WALL_LIMIT}s of wall clock")
+
+        old = signal.signal(signal.SIGALRM, on_alarm)
+        signal.setitimer(signal.ITIMER_REAL, CASE_WALL_LIMIT)
         try:
-            info = self.part.run_case(case)
+            try:
+                info = self.part.run_case(case)
+            finally:
+                signal.setitimer(signal.ITIMER_REAL, 0)
+                signal.signal(signal.SIGALRM, old)
         except Inconclusive:
             self.inconclusive += 1
             self.evals += 1
